@@ -39,6 +39,7 @@ type hSettings struct {
 	MaxDepth  int    `json:"max_depth"`
 	TimeoutMs int    `json:"timeout_ms"`
 	Repeat    int    `json:"replay_repeat"` // native replay repetitions (map order)
+	Race      bool   `json:"race"`          // native replay under the Go race detector, one process per case
 	Note      string `json:"note"`
 }
 
@@ -142,7 +143,11 @@ type nativeCase struct {
 	Thorough bool                 `json:"thorough"`
 	Repeat   int                  `json:"repeat"`
 	ID       string               `json:"id"`
+	Race     bool                 `json:"race,omitempty"`
 }
+
+// raceLabel is the assertion label a race-mode harness passes to verifrt.RaceDetect.
+const raceLabel = "no-data-race"
 
 type nativeOutcome struct {
 	ID         string   `json:"id"`
@@ -212,6 +217,14 @@ func goEnv() []string {
 }
 
 func (nr *nativeRunner) binFor(pkgRel string) (string, error) {
+	return nr.binForMode(pkgRel, false)
+}
+
+func (nr *nativeRunner) binForMode(pkgRelIn string, race bool) (string, error) {
+	pkgRel := pkgRelIn
+	if race {
+		pkgRel = pkgRelIn + "#race"
+	}
 	if b, ok := nr.bins[pkgRel]; ok {
 		return b, nil
 	}
@@ -223,9 +236,14 @@ func (nr *nativeRunner) binFor(pkgRel string) (string, error) {
 			return "", err
 		}
 	}
-	bin := filepath.Join(nr.verif, "out", "bin", strings.ReplaceAll(pkgRel, "/", "_")+".test")
+	bin := filepath.Join(nr.verif, "out", "bin", strings.ReplaceAll(strings.ReplaceAll(pkgRel, "/", "_"), "#", "_")+".test")
 	os.MkdirAll(filepath.Dir(bin), 0755)
-	cmd := exec.Command("go", "test", "-c", "-vet=off", "-tags", "verif", "-overlay", nr.overlayPath, "-o", bin, "./"+pkgRel)
+	args := []string{"test", "-c", "-vet=off", "-tags", "verif", "-overlay", nr.overlayPath, "-o", bin}
+	if race {
+		args = append(args, "-race")
+	}
+	args = append(args, "./"+pkgRelIn)
+	cmd := exec.Command("go", args...)
 	cmd.Dir = nr.repo
 	cmd.Env = goEnv()
 	out, err := cmd.CombinedOutput()
@@ -241,6 +259,18 @@ func (nr *nativeRunner) binFor(pkgRel string) (string, error) {
 func (nr *nativeRunner) run(pkgRel string, cases []nativeCase) ([]nativeOutcome, error) {
 	if len(cases) == 0 {
 		return nil, nil
+	}
+	if cases[0].Race {
+		// one process per case: the race detector halts the process at the first report
+		var outs []nativeOutcome
+		for _, c := range cases {
+			o, err := nr.runRace(pkgRel, c)
+			if err != nil {
+				return outs, err
+			}
+			outs = append(outs, o)
+		}
+		return outs, nil
 	}
 	bin, err := nr.binFor(pkgRel)
 	if err != nil {
@@ -270,6 +300,55 @@ func (nr *nativeRunner) run(pkgRel string, cases []nativeCase) ([]nativeOutcome,
 		return nil, err
 	}
 	return outs, nil
+}
+
+// runRace replays one case in a binary built with -race. A report of the Go
+// race detector ends the process with exit code 66 and counts as a failure of
+// the label "no-data-race".
+func (nr *nativeRunner) runRace(pkgRel string, c nativeCase) (nativeOutcome, error) {
+	bin, err := nr.binForMode(pkgRel, true)
+	if err != nil {
+		return nativeOutcome{}, err
+	}
+	dir := filepath.Join(nr.verif, "out", "replay")
+	os.MkdirAll(dir, 0755)
+	in := filepath.Join(dir, fmt.Sprintf("race_%d_in.json", time.Now().UnixNano()))
+	outp := strings.Replace(in, "_in.json", "_out.json", 1)
+	b, _ := json.Marshal([]nativeCase{c})
+	os.WriteFile(in, b, 0644)
+	defer os.Remove(in)
+	defer os.Remove(outp)
+	cmd := exec.Command(bin, "-test.run", "^TestVerifReplay$", "-test.timeout", "300s")
+	cmd.Dir = filepath.Join(nr.repo, pkgRel)
+	if _, serr := os.Stat(cmd.Dir); serr != nil {
+		cmd.Dir = nr.repo
+	}
+	cmd.Env = append(os.Environ(), "VERIF_REPLAY_IN="+in, "VERIF_REPLAY_OUT="+outp, fmt.Sprintf("VERIF_SEED=%d", nr.seed),
+		"GORACE=halt_on_error=1 exitcode=66")
+	co, rerr := cmd.CombinedOutput()
+	raced := strings.Contains(string(co), "WARNING: DATA RACE")
+	if ob, e := os.ReadFile(outp); e == nil {
+		var outs []nativeOutcome
+		if json.Unmarshal(ob, &outs) == nil && len(outs) == 1 {
+			o := outs[0]
+			if raced && !containsStr(o.Failed, raceLabel) {
+				o.Failed = append(o.Failed, raceLabel)
+			}
+			return o, nil
+		}
+	}
+	if raced {
+		rep := string(co)
+		if i := strings.Index(rep, "WARNING: DATA RACE"); i >= 0 {
+			rep = rep[i:]
+		}
+		if len(rep) > 4000 {
+			rep = rep[:4000]
+		}
+		os.WriteFile(filepath.Join(dir, "last_race_report.txt"), []byte(rep), 0644)
+		return nativeOutcome{ID: c.ID, Harness: c.Harness, Failed: []string{raceLabel}, Runs: 1}, nil
+	}
+	return nativeOutcome{}, fmt.Errorf("race-mode replay produced no output (%v): %s", rerr, firstLine(string(co)))
 }
 
 // ---- evidence ----
@@ -437,10 +516,10 @@ func runCheck(args []string) int {
 			rep = 1
 		}
 		for i, ce := range hr.CEs {
-			cases = append(cases, nativeCase{Harness: h.Name, Vector: ce.Vector, Thorough: tier == "thorough", Repeat: rep, ID: fmt.Sprintf("ce%d", i)})
+			cases = append(cases, nativeCase{Harness: h.Name, Vector: ce.Vector, Thorough: tier == "thorough", Repeat: rep, ID: fmt.Sprintf("ce%d", i), Race: st.Race})
 		}
 		for i, p := range hr.Predictions {
-			cases = append(cases, nativeCase{Harness: h.Name, Vector: p.Vector, Thorough: tier == "thorough", Repeat: 1, ID: fmt.Sprintf("pr%d", i)})
+			cases = append(cases, nativeCase{Harness: h.Name, Vector: p.Vector, Thorough: tier == "thorough", Repeat: rep, ID: fmt.Sprintf("pr%d", i), Race: st.Race})
 		}
 		outs, nerr := nr.run(h.PkgRel, cases)
 		if nerr != nil {
@@ -516,7 +595,7 @@ func runCheck(args []string) int {
 			rp := filepath.Join(rdir, fmt.Sprintf("%s_%s_%d.json", h.Name, sanitize(ce.Label), i))
 			rb, _ := json.MarshalIndent(map[string]interface{}{
 				"property": prop, "harness": h.Name, "pkg": h.PkgRel, "label": ce.Label, "kind": ce.Kind,
-				"message": msg, "vector": ce.Vector, "thorough": tier == "thorough", "repeat": rep, "where": ce.Where,
+				"message": msg, "vector": ce.Vector, "thorough": tier == "thorough", "repeat": rep, "race": st.Race, "where": ce.Where,
 			}, "", " ")
 			os.WriteFile(rp, rb, 0644)
 			violations++
@@ -709,6 +788,7 @@ func runReplay(nr *nativeRunner, path string) int {
 		Vector   []ssaexec.ReplayItem `json:"vector"`
 		Thorough bool                 `json:"thorough"`
 		Repeat   int                  `json:"repeat"`
+		Race     bool                 `json:"race"`
 	}
 	b, err := os.ReadFile(path)
 	if err != nil {
@@ -719,7 +799,7 @@ func runReplay(nr *nativeRunner, path string) int {
 		fmt.Fprintln(os.Stderr, err)
 		return 2
 	}
-	outs, err := nr.run(rf.Pkg, []nativeCase{{Harness: rf.Harness, Vector: rf.Vector, Thorough: rf.Thorough, Repeat: rf.Repeat, ID: "r"}})
+	outs, err := nr.run(rf.Pkg, []nativeCase{{Harness: rf.Harness, Vector: rf.Vector, Thorough: rf.Thorough, Repeat: rf.Repeat, ID: "r", Race: rf.Race}})
 	if err != nil {
 		fmt.Fprintln(os.Stderr, err)
 		return 2
